@@ -290,7 +290,7 @@ class PointEngine(Engine):
                     kw[k] = v.tolist() if isinstance(v, np.ndarray) else v
             op['kwargs'] = kw
             op['shorthand'] = [k for k in kw if r.random() < 0.35]
-            op['unknown_kw'] = r.random() < 0.15
+            op['unknown_kw'] = r.choice([False, False, False, False, False, 'first', 'last'])
         if kind == 'i':
             op['atype'] = r.choice([None, 1, 2, 3, 4])
         if kind == 's':
@@ -445,6 +445,9 @@ class PointEngine(Engine):
         if sel in ('pos', 'rel', 'near', 'image', 'image_rel') and op['pos_as'] == 'intlist' and all(isinstance(x, int) for x in kw['pos']):
             ctx.probe('integer_pos_input')
         call_kw = dict(kw)
+        if op.get('unknown_kw') == 'first' and kind in ('i', 's', 'db'):
+            call_kw['magmom'] = 1.5         # keyword order is the order the callee's loop sees
+            ctx.probe('keyword_naming_no_property')
         short = set(op.get('shorthand') or [])
         for k2, v in list(kwargs.items()):
             ts2 = m.reg[k2][1]
@@ -456,7 +459,7 @@ class PointEngine(Engine):
                 ctx.probe('keyword_value_broadcast_shorthand')
             else:
                 call_kw[k2] = np.array(v) if isinstance(v, list) else v
-        if op.get('unknown_kw') and kind in ('i', 's', 'db'):
+        if op.get('unknown_kw') and op.get('unknown_kw') != 'first' and kind in ('i', 's', 'db'):
             # a keyword that names no per-atom property of this system: documented as ignored
             call_kw['magmom'] = 1.5
             ctx.probe('keyword_naming_no_property')
